@@ -107,7 +107,7 @@ def _sort_parser(values, k):
         raise FoundError(err=values)
     err = get_error(values)
     if err:
-        return err, k
+        return err, replace_empty(k)
     values = np.array(tuple(flatten(
         values, lambda v: not isinstance(v, (str, bool))
     )), float)
